@@ -327,6 +327,11 @@ impl Sys for Sys10 {
             v.push(Ev::Add(k));
         }
         v.push(Ev::Publish);
+        for kind in 0..2u8 {
+            if !self.s.log.iter().any(|i| matches!(i, Item::Api(Ev::AddRefused(k), _) if *k == kind)) {
+                v.push(Ev::AddRefused(kind));
+            }
+        }
         for k in 0..self.s.catalog.len() {
             if self.s.toi_of[k].is_some() && !self.s.removed[k] {
                 v.push(Ev::Remove(k));
